@@ -267,6 +267,65 @@ def reduction_shard(kind, conn, nio, dt, sign, redname):
     return tally
 
 
+def applied_shard(kind, sign, T, delayed=False):
+    """Part C: the update is applied (and the accumulator consumed) after *every* step, B=1 with the default reduction:
+    all pre/post histories of length T x every reward sign sequence; the weight change of each step must equal that step's
+    pair sum scaled by that step's own signal - nothing may survive in the accumulator from an earlier step."""
+    tally = Tally()
+    spec = Cellspec("dense", 1, 1)
+    dt, gamma = 1.0, 0.5
+    hs = all_histories(T, 2)
+    three = kind in ("mstdp", "mstdpet")
+    seqs = list(itertools.product((1.0, -1.0), repeat=T)) if three else [(1.0,) * T]
+    K = None
+    for h in hs:
+        pre_bits = [[h[t][:1]] for t in range(T)]
+        post_bits = [[h[t][1:]] for t in range(T)]
+        pre_syn = torch.stack([spec.pre_syn(pre_bits[t]) for t in range(T)], 0)
+        post = torch.stack([spec.post_ref(post_bits[t]) for t in range(T)], 0)
+        for seq in seqs:
+            case = {"trainer": kind, "sign": sign, "history": h, "signals": list(seq), "delayed": delayed, "update": "every step"}
+            tally.add("evaluations")
+            try:
+                if delayed:
+                    layer = spec.build(dt, 1, 1.0 * dt, torch.full(spec.wshape, 1.0 * dt))
+                else:
+                    layer = spec.build(dt, 1)
+                trainer = make_trainer(kind, sign, "cumulative", delayed, None)
+                trainer.register_cell("cell", layer.cell)
+            except Exception as ex:
+                tally.violation(f"exception:register:{kind}:{type(ex).__name__}", case, repr(ex))
+                continue
+            Kd = spec.delays_to_K(torch.full(spec.wshape, 1.0 * dt) if delayed else None, dt)
+            sig = torch.tensor(seq, dtype=F64).reshape(T, 1)
+            rp, rn = reference(kind, sign, "cumulative", dt, pre_syn, post, Kd, sig, gamma)
+            w = layer.connection.weight.detach().clone().to(F64)
+            for t in range(T):
+                try:
+                    layer(spec.pre_tensor(pre_bits[t]), neuron_kwargs={"override": spec.post_tensor(post_bits[t])})
+                    if three:
+                        trainer(float(seq[t]), gamma)
+                    else:
+                        trainer()
+                    layer.connection.update()
+                except Exception as ex:
+                    tally.violation(f"exception:{kind}:applied:{type(ex).__name__}", {**case, "step": t}, repr(ex))
+                    break
+                got = layer.connection.weight.detach().to(F64) - w
+                exp = spec.to_weight_space(rp[t] + rn[t])[0]
+                if not torch.allclose(got, exp, rtol=1e-5, atol=1e-6):
+                    tally.violation(f"applied-step:{kind}:{sign}{':delayed' if delayed else ''}", {**case, "step": t},
+                                    f"step {t} (signal {seq[t]}): applied change {got.reshape(-1).tolist()} != that step's signed pair sum "
+                                    f"{exp.reshape(-1).tolist()}", exp.tolist(), got.tolist())
+                    break
+                w = layer.connection.weight.detach().clone().to(F64)
+            if any(a and b for a, b in [(h[t][0], h[t][1]) for t in range(T)]) or len(set(seq)) > 1:
+                tally.mark("nontrivial", ("applied", kind, sign, delayed, tuple(map(tuple, h)), seq))
+    tally.add("histories", len(hs) * len(seqs))
+    tally.sample({"part": "applied every step", "trainer": kind, "sign": sign, "T": T, "reward sequences": len(seqs)})
+    return tally
+
+
 def multicell_shard(kind, sign, T):
     """one trainer, TWO cells (two layers) with different histories; for the three-factor rules a per-sample signal TENSOR
     (batch of one) with scale != 1: every cell's update equals its own single-cell reference"""
@@ -338,13 +397,17 @@ def run(rep):
                             for dmode in ("frozen", "delayed"):
                                 jobs.append((history_shard, (kind, "dense", (1, 1), T1, dt, sign, mode, (dmode, 2), sp)))
         # index / transposition faults: 2x2 and friends, all histories of length T2 (hebbian + dep, cumulative)
-        for conn, nio in (("dense", (2, 2)), ("direct", (2, 2)), ("lateral", (2, 2)), ("conv", (1, 1)), ("dense", (2, 1)), ("dense", (1, 2))):
+        for conn, nio in (("dense", (2, 2)), ("direct", (2, 2)), ("lateral", (2, 2)), ("conv", (1, 1)), ("conv2c", (1, 1)), ("dense", (2, 1)), ("dense", (1, 2))):
             for sign in ("hebbian", "anti"):
                 sp = "stepalt" if kind in ("mstdp", "mstdpet") else "pos"
                 jobs.append((history_shard, (kind, conn, nio, T2, 1.0, sign, "cumulative", None, sp)))
-                if conn in ("dense", "conv") and nio in ((2, 2), (1, 1)):
+                if conn in ("dense", "conv", "conv2c") and nio in ((2, 2), (1, 1)):
                     jobs.append((history_shard, (kind, conn, nio, T2, 1.0, sign, "cumulative", ("delayed", 1), sp)))
                     jobs.append((history_shard, (kind, conn, nio, T2, 1.0, sign, "nearest", ("frozen", 1), sp)))
+        for sign in SIGNS:
+            jobs.append((applied_shard, (kind, sign, 3 if quick else 4)))
+            if kind in ("stdp", "mstdp"):
+                jobs.append((applied_shard, (kind, sign, 3 if quick else 4, True)))
         for redname in ("default", "sum", "mean"):
             # the per-sample signal path routes every (sample, term) by lr sign x signal sign: all four sign modes there
             for sign in (tuple(SIGNS) if (kind in ("mstdp", "mstdpet") and redname != "mean") else ("hebbian", "dep")):
